@@ -3,6 +3,7 @@ from check import run_diff_property
 CFG = dict(
     streams=[('cap', 1500, 20000)],
     oracle_ops={'capspec'},
+    self_evident=lambda o, i: 'up=MISMATCH' in i or i.startswith('panic'),
     rule=("scripted net.Conn delivering chosen chunks to the real HijackClientHelloConn; GetClientHello asked after every "
           "read; exhaustive: all 2^(n-1) segmentations of every stream of total length <= 10 (quick) / 14 (thorough), all "
           "type bytes, boundary/all record versions, cut pairs around header and record boundary for lengths "
